@@ -98,3 +98,48 @@ def late_hs_histories(rng, n):
             hs = [[(0, 1, 0)]] + [[(x, 1, 0)] for x in d] + prompt_hs
         out.append(([0] * 8, hs, data, ops))
     return out
+
+
+def reauth_on_live_session(rng, n):
+    """an authenticated live session, then an explicit authenticate with OTHER credentials whose reply cannot be verified
+    (garbage / error / none / a reply under the appliance's key, which the wrong client key rejects): it must fail, a handshake
+    request must go out, the stored credentials must stay"""
+    out = []
+    for _ in range(n):
+        bad_reply = rng.choice([[(0, 2, 0)], [(0, 3, 0)], [], [(0, 1, 0)], [(0, 0, 9)]])
+        pause = rng.choice([0, 500, 3000])
+        ops = [(2, 1, 3)] + ([(5, pause, 0)] if pause else []) + [(2, 2, rng.choice([1, 2, 3])), (1, rng.randrange(1, 200), 3)]
+        hs = [[(0, 1, 0)], bad_reply, bad_reply, bad_reply] + [[(0, 1, 0)]] * 6
+        out.append(([0] * 6, hs, [[(0, 0, rng.randrange(1, 250))] for _ in range(6)], ops))
+    return out
+
+
+def lifetime_histories(rng, n):
+    """a configured connection lifetime L, a re-handshake on the SAME connection before L is over, then an exchange after the
+    connection's lifetime has run out (but less than L after the re-handshake): it must start on a NEW connection"""
+    out = []
+    for _ in range(n):
+        L = rng.choice([10000, 30000])
+        a = rng.choice([L // 2, L // 2 + 1700, L - 2500])
+        b = L - a + rng.choice([300, 1500, L // 3])                 # connect + L < now < re-handshake + L
+        how = rng.choice(["explicit", "expiry"])
+        if how == "explicit":
+            ops = [(6, L, 0), (2, 1, 3), (5, a, 0), (2, 1, 3), (5, b, 0), (1, rng.randrange(1, 200), 3), (1, rng.randrange(1, 200), 3)]
+        else:
+            ops = [(6, L, 0), (4, 1, 0), (5, a, 0), (4, 1, 0), (5, b, 0), (3, rng.randrange(1, 200), 0), (3, rng.randrange(1, 200), 0)]
+        out.append(([0] * 6, [[(0, 1, 0)]] * 8, [[(0, 0, rng.randrange(1, 250))] for _ in range(6)], ops))
+    return out
+
+
+def fault_then_expiry(rng, n):
+    """a configured lifetime, an exchange that drops the connection (garbage / error / silence / peer close), a pause longer
+    than the lifetime, then an ordinary exchange"""
+    out = []
+    for _ in range(n):
+        v3 = rng.random() < 0.5
+        fault = rng.choice([[(0, 3, 0)], [], [(0, 4, 0)], [(0, 1, 0)] if not v3 else [(0, 3, 0)]])
+        level = rng.choice([1, 3])
+        ops = [(6, 1000, 0)] + ([(2, 1, 3)] if v3 else []) + [(level, 30, 3), (5, rng.choice([1200, 2500, 9000]), 0), (level, 31, 3), (level, 32, 3)]
+        replies = [fault] + ([[]] * 2 if not fault else []) + [[(0, 0, 77)]] * 6
+        out.append(([0] * 8, [[(0, 1, 0)]] * 8, replies, ops))
+    return out
